@@ -378,6 +378,9 @@ func runC17(c *mon.Ctx) {
 			}
 			c.Count("histories_with_a_pmt_of_65536_bytes")
 		}
+		if i%16 == 7 {
+			ops = oversizeReaddScenario(r)
+		}
 		hr := runHistory(ops, period)
 		ems, _ := tablesOracle(c, "C17", "random", i, hr, true)
 		c.Count("random_histories")
